@@ -27,6 +27,8 @@ def check(model, R, tier):
     K.check_literal_perm_pairs(model, R, 'C02', POOLS)
     K.check_axisgen(model, R, 'C02', ['synapgrad.cpu_ops.softmax_forward', 'synapgrad.cpu_ops.softmax_backward',
                                        'synapgrad.cpu_ops.log_softmax_forward', 'synapgrad.cpu_ops.log_softmax_backward'])
+    from sa import deriv
+    deriv.check_deriv(model, R, 'C02', ['tanh', 'sigmoid', 'mse_loss'])
     check_bn_mode(model, R)
     check_poolpair(model, R)
     check_layers(model, R, ops)
